@@ -80,11 +80,20 @@ class Ranger:
                     r = IntervalSet([(a.lo() + b.lo(), a.hi() + b.hi())])
                 else:
                     r = IntervalSet([(a.lo() - b.hi(), a.hi() - b.lo())])
+        elif k == 'deref' and t[1][0] in ('index', 'deref'):
+            return self.term_range(body, t[1], pf, ty, depth + 1)
         elif k == 'index':
             base = deref_all(t[1])
             if base[0] == 'const' and isinstance(base[1], tuple) and base[1]:
                 vals = sorted(set(base[1]))
                 r = IntervalSet([(v, v) for v in vals])
+            else:
+                # an element of a byte slice / byte vector / byte array
+                from pat import access_path
+                import re as _re
+                rt, st = access_path(t[1])
+                if rt[0] in ('init', 'hav') and not st and _re.search(r'\[u8(;|\])|Vec<u8>', str(body.local_ty(rt[1]).get('s', ''))):
+                    r = IntervalSet([(0, 255)])
         elif k == 'field' and t[1][0] == 'downcast':
             # payload of Some/Ok/Continue of a local callee's result: the callee's return range
             inner = t[1][1]
